@@ -29,7 +29,7 @@ LEVEL_NOTE = ('Equality of patched objects is modulo presence of empty mappings 
               're-check the declared operations (Kubernetes does via the webhook configuration): no expectation is generated for that combination.')
 RULE = ("each case = one review x one handler set; non-trivial = at least one handler mutates or raises; distinct = hash of (review, handler scripts)")
 ASSUMPTIONS = ["independent RFC 7386/6902 implementations in kv/fakekube.py", "handlers are executed in registration order (all_at_once)"]
-GATES = {'reviews': 2000, 'denied': 200, 'allowed': 200, 'with_patch': 500, 'type_changes': 50, 'multi_error': 50, 'delete_reviews': 100, 'hinted': 200}
+GATES = {'reviews': 2000, 'denied': 200, 'allowed': 200, 'with_patch': 500, 'type_changes': 50, 'multi_error': 50, 'delete_reviews': 100, 'hinted': 200, 'field_filters': 200}
 
 PATHS = [('spec', 'a'), ('spec', 'b'), ('spec', 'b', 'c'), ('spec', 'b', 'd', 'e'), ('metadata', 'labels', 'l'), ('metadata', 'annotations', 'x.y/z'),
          ('spec', 'k~1/2'), ('spec', 'ключ'), ('spec', 'a b'), ('status', 's'), ('spec',), ('data', 'q')]
@@ -78,6 +78,15 @@ def rnd_handlers(rng: random.Random) -> list[dict[str, Any]]:
             h['subresource'] = rng.choice(['status', '*'])
         if rng.random() < 0.2:
             h['labels'] = rng.choice([{'l': 'a'}, {'l': '$ABSENT'}])
+        r2 = rng.random()
+        if r2 < 0.2:
+            # field/value filters (rare with webhooks, but declared the same way): the CURRENT value of the reviewed object decides
+            h['field'] = rng.choice(['spec.a', 'spec.b', 'spec.b.c', 'metadata.labels.l'])
+            h['value'] = rng.choice(['$NONE', '$PRESENT', '$ABSENT', 1, 'str', 'a'])
+        elif r2 < 0.3:
+            h['annotations'] = rng.choice([{'x.y/z': 'v'}, {'x.y/z': '$ABSENT'}, {'x.y/z': '$PRESENT'}])
+        elif r2 < 0.4:
+            h['when'] = rng.choice(['has_status', 'no_status'])
         for _ in range(rng.randint(0, 3)):
             k = rng.random()
             if k < 0.2:
@@ -171,18 +180,28 @@ def run_case(case: dict[str, Any]) -> dict[str, Any]:
                     kw['subresource'] = h['subresource']
                 if h.get('labels'):
                     kw['labels'] = {k: (kopf.ABSENT if v == '$ABSENT' else v) for k, v in h['labels'].items()}
+                if h.get('annotations'):
+                    kw['annotations'] = {k: (kopf.ABSENT if v == '$ABSENT' else kopf.PRESENT if v == '$PRESENT' else v) for k, v in h['annotations'].items()}
+                if h.get('field'):
+                    kw['field'] = h['field']
+                    if h['value'] != '$NONE':
+                        kw['value'] = kopf.ABSENT if h['value'] == '$ABSENT' else kopf.PRESENT if h['value'] == '$PRESENT' else h['value']
+                if h.get('when'):
+                    kw['when'] = (lambda status, **_: bool(status)) if h['when'] == 'has_status' else (lambda status, **_: not status)
                 getattr(kopf.on, h['type'])('kopfexamples', **kw)(make(h))
             op = rng.choice(['CREATE', 'UPDATE', 'UPDATE', 'DELETE', 'CONNECT'])
             sub = rng.choice([None, None, None, 'status', 'scale'])
             obj = rnd_object(rng)
             old = rnd_object(rng) if op in ('UPDATE', 'DELETE') else None
             new = None if op == 'DELETE' else obj
-            hint = rng.choice([None, None] + [h['id'] for h in hs])
+            def eid(h: dict[str, Any]) -> str:
+                return f"{h['id']}/{h['field']}" if h.get('field') else h['id']      # a field= criterion becomes a part of the handler's (webhook's) id
+            hint = rng.choice([None, None] + [eid(h) for h in hs])
             reason_hint = None
             if hint is None and rng.random() < 0.3:
                 reason_hint = rng.choice(['validating', 'mutating'])
             if hint is not None:
-                hh = next(h for h in hs if h['id'] == hint)
+                hh = next(h for h in hs if eid(h) == hint)
                 if hh.get('operations') and op not in hh['operations'] and op != 'CONNECT':
                     op = rng.choice(hh['operations'])   # Kubernetes only calls a handler's own endpoint for its declared operations
                     old = rnd_object(rng) if op in ('UPDATE', 'DELETE') else None
@@ -215,7 +234,7 @@ def run_case(case: dict[str, Any]) -> dict[str, Any]:
             want_run: list[str] = []
             unknown: set[str] = set()
             for h in hs:
-                if hint is not None and hint != h['id']:
+                if hint is not None and hint != eid(h):
                     continue
                 if reason_hint is not None and reason_hint != ('validating' if h['type'] == 'validate' else 'mutating'):
                     continue
@@ -227,6 +246,28 @@ def run_case(case: dict[str, Any]) -> dict[str, Any]:
                 if h.get('labels'):
                     okl = all((k not in labels) if v == '$ABSENT' else (labels.get(k) == v) for k, v in h['labels'].items())
                     if not okl:
+                        continue
+                if h.get('annotations'):
+                    anns = (reviewed.get('metadata') or {}).get('annotations') or {}
+                    if not all((k not in anns) if v == '$ABSENT' else (k in anns) if v == '$PRESENT' else (anns.get(k) == v) for k, v in h['annotations'].items()):
+                        continue
+                if h.get('field'):
+                    cur: Any = reviewed
+                    present = True
+                    for part in h['field'].split('.'):
+                        if isinstance(cur, dict) and part in cur:
+                            cur = cur[part]
+                        else:
+                            present = False
+                            break
+                    v = h['value']
+                    okf = (not present) if v == '$ABSENT' else present if v in ('$PRESENT', '$NONE') else (present and cur == v)
+                    cov['field_filters'] = cov.get('field_filters', 0) + 1
+                    if not okf:
+                        continue
+                if h.get('when'):
+                    st = reviewed.get('status')
+                    if bool(st) != (h['when'] == 'has_status'):
                         continue
                 if h.get('operations') and op not in h['operations'] and hint is None:
                     unknown.add(h['id'])     # not re-checked by the framework without a hint; Kubernetes would not have called
